@@ -128,6 +128,8 @@ def run(ck: Check, prog: Program) -> None:
                'strict mode — matching the server rule that notifications and all-notification batches are answered with nothing; '
                'is_notification definitions (id is None; all() over a batch).')
     ck.not_decided += ['value equality of results / arguments end to end', 'interchangeability of notations on concrete data (runtime values)']
+    from .cfacts import client_program
+    prog = client_program(prog)
     crs = clients(prog)
     base = prog.cls(BASE_CLIENT)
     ty = types_of(prog)
@@ -237,8 +239,18 @@ def run(ck: Check, prog: Program) -> None:
             else:
                 if dotted(p) != 'params':
                     problems.append(f'params `{norm(p) if p is not None else "?"}`')
-                comp = [x for x in walk_own(f.node) if isinstance(x, ast.ListComp)]
-                ok_c = comp and len(comp[0].generators) == 1 and not comp[0].generators[0].ifs and dotted(comp[0].generators[0].iter) == f.params[1].arg
+                # the requests handed to the batch are built for every item of the argument, in order (comprehension or loop)
+                from ..flow import Flow
+                cfg_ = CFG(f, prog)
+                fl_ = Flow(cfg_)
+                ok_c = False
+                for n_ in cfg_.stmt_nodes():
+                    for c_ in calls_in(n_):
+                        if isinstance(c_.func, ast.Attribute) and c_.func.attr == 'extend' and len(c_.args) == 1:
+                            sqs = fl_.seq(n_, c_.args[0])
+                            if len(sqs) == 1 and sqs[0].kind == 'iter' and sqs[0].total and not sqs[0].reordered and \
+                                    dotted(sqs[0].iter) == f.params[1].arg and len(sqs[0].elt) == 1 and sqs[0].elt[0].expr is rc[0]:
+                                ok_c = True
                 if not ok_c:
                     problems.append('requests are not built for every item, in order')
         ck.ob('NOTATION-SHAPE', f'BaseBatch.{mname}: one request per call, id {want_id}', not problems)
